@@ -23,6 +23,8 @@ import traceback
 VERIF = os.path.dirname(os.path.dirname(os.path.abspath(__file__)))
 if VERIF not in sys.path:
     sys.path.insert(0, VERIF)
+# where evidence/ and replays/ are written (mutation rehearsals redirect this)
+OUT = os.environ.get("VERIF_OUT_DIR", VERIF)
 
 sys.setrecursionlimit(20000)
 
@@ -33,12 +35,15 @@ def make_path_fn(spec):
     """factory used by the engine's workers"""
     from harness.symbackend import SymBackend
     from pysym.interp import PyExc
-    check_id, params, validate_mod, seed = spec["check"], spec["params"], spec.get("validate_mod", 1), spec.get("seed", 0)
+    check_id, configs, validate_mod, seed = spec["check"], spec["configs"], spec.get("validate_mod", 1), spec.get("seed", 0)
     mod = importlib.import_module("checks." + check_id.lower())
 
     def fn(ctx):
         # validate a deterministic sample of paths: all of them while
         # validate_mod == 1, else those whose trail hashes to 0
+        ci = ctx.choose(len(configs)) if len(configs) > 1 else 0
+        params = configs[ci]
+        ctx.reach(f"cfg:{ci}")
         B = SymBackend(ctx, check_id, params, validate=True)
         try:
             mod.scenario(B, params)
@@ -90,32 +95,24 @@ def run_check(check_id, tier, seed, log=print):
     exhausted_all = True
     per_config = []
     violations = []
+    ctis = []
     unreproduced = []
     known = load_known()
     known_hits = {}
     validate_cap = getattr(mod, "VALIDATE_CAP", {"quick": 1500, "thorough": 3000})[tier]
+    vm = getattr(mod, "VALIDATE_MOD", {"quick": 1, "thorough": 1})[tier]
+    spec = ("harness.runner", "make_path_fn", {"check": check_id, "configs": configs, "validate_mod": vm, "seed": seed})
+    st, exhausted = explore_parallel(spec, time_limit=budget, log=log,
+                                     initial=[(i,) for i in range(len(configs) - 1, -1, -1)] if len(configs) > 1 else None)
+    exhausted_all = exhausted
+    total.merge(st)
     for ci, params in enumerate(configs):
-        tc = time.time()
-        remaining = budget - (time.time() - t0)
-        if remaining <= 5:
-            exhausted_all = False
-            log(f"[{check_id}] time budget exhausted before config {ci}: {params}")
-            break
-        vm = params.pop("_validate_mod", None) or getattr(mod, "VALIDATE_MOD", {"quick": 1, "thorough": 1})[tier]
-        spec = ("harness.runner", "make_path_fn", {"check": check_id, "params": params, "validate_mod": vm, "seed": seed})
-        st, exhausted = explore_parallel(spec, time_limit=remaining, log=log)
-        exhausted_all = exhausted_all and exhausted
-        total.merge(st)
-        per_config.append({"params": params, "paths": st.paths, "obligations": st.obligations,
-                           "discharged": st.discharged, "bound_hits": st.bound_hits,
-                           "validated": st.validated, "exhausted": exhausted, "wall_s": round(time.time() - tc, 2)})
-        log(f"[{check_id}] config {ci + 1}/{len(configs)} {json.dumps(params)}: paths={st.paths} obl={st.obligations} "
-            f"ok={st.discharged} failed={len(st.failed)} boundhits={st.bound_hits} validated={st.validated} "
-            f"solver={st.solver_s:.1f}s wall={time.time() - tc:.1f}s{'' if exhausted else ' NOT EXHAUSTED'}")
-        if st.errors:
-            break
+        per_config.append({"params": params, "paths": st.reached.get(f"cfg:{ci}", 0)})
+    log(f"[{check_id}] {len(configs)} configs: paths={st.paths} obl={st.obligations} "
+        f"ok={st.discharged} failed={len(st.failed)} boundhits={st.bound_hits} validated={st.validated} "
+        f"solver={st.solver_s:.1f}s wall={time.time() - t0:.1f}s{'' if exhausted else ' NOT EXHAUSTED'}")
     # ---- triage failures
-    os.makedirs(os.path.join(VERIF, "replays", check_id), exist_ok=True)
+    os.makedirs(os.path.join(OUT, "replays", check_id), exist_ok=True)
     seen = set()
     for rec in total.failed:
         sc = rec.get("scenario")
@@ -132,6 +129,11 @@ def run_check(check_id, tier, seed, log=print):
             if key in seen:
                 continue
             seen.add(key)
+            if rec.get("meta", {}).get("state_via") == "private":
+                # counterexample to induction whose pre-state was not reached
+                # through the public API: not a violation (DESIGN 4.1)
+                ctis.append(rec)
+                continue
             violations.append(rec)
         else:
             unreproduced.append(rec)
@@ -146,17 +148,24 @@ def run_check(check_id, tier, seed, log=print):
     for hid, f in known_hits.items():
         lines.append(f"KNOWN-FINDING: property={check_id} {f['text']}")
     for i, rec in enumerate(violations[:20]):
-        path = os.path.join(VERIF, "replays", check_id, f"violation_{i}.json")
+        path = os.path.join(OUT, "replays", check_id, f"violation_{i}.json")
         json.dump(rec["scenario"], open(path, "w"), indent=1)
         lines.append(f"VIOLATION property={check_id} replay={path}")
         lines.append(f"  obligation={rec['obligation']} native_failed={rec.get('native_failed')}")
         status = 1
     problems = []
+    if ctis:
+        path = os.path.join(OUT, "replays", check_id, "cti_0.json")
+        json.dump(ctis[0], open(path, "w"), indent=1, default=str)
+        names = sorted({c["obligation"] for c in ctis})
+        print(f"NOTE[{check_id}]: induction not closed for {names}: {len(ctis)} counterexample(s) to induction whose "
+              f"pre-state could not be reached through the public API (first: {path}); the claim for these "
+              f"families is the bounded-history (BMC) result only")
     if total.errors:
         problems.append("harness errors: " + " | ".join(e[:2000] for e in total.errors[:3]))
     if unreproduced and not violations:
         r = unreproduced[0]
-        path = os.path.join(VERIF, "replays", check_id, "unreproduced_0.json")
+        path = os.path.join(OUT, "replays", check_id, "unreproduced_0.json")
         json.dump(r, open(path, "w"), indent=1, default=str)
         problems.append(f"{len(unreproduced)} counterexample(s) did not reproduce natively "
                         f"(encoding or stub suspect; first: obligation={r['obligation']}, see {path})")
@@ -193,6 +202,7 @@ def run_check(check_id, tier, seed, log=print):
             "engine": "pysym (source-level symbolic execution of " + root + ", re-parsed this run) + z3 " + _z3v(),
             "known_findings_matched": sorted(known_hits),
             "violations_reported": len(violations),
+            "induction_not_closed": sorted({c["obligation"] for c in ctis}),
             "inconclusive_reasons": problems,
             "explanation": getattr(mod, "EXPLANATION", ""),
         },
@@ -202,8 +212,8 @@ def run_check(check_id, tier, seed, log=print):
     }
     if ev["coverage"]["states"] < 1:
         ev["coverage"]["states"] = 0
-    os.makedirs(os.path.join(VERIF, "evidence"), exist_ok=True)
-    json.dump(ev, open(os.path.join(VERIF, "evidence", check_id + ".json"), "w"), indent=1, default=str)
+    os.makedirs(os.path.join(OUT, "evidence"), exist_ok=True)
+    json.dump(ev, open(os.path.join(OUT, "evidence", check_id + ".json"), "w"), indent=1, default=str)
     for l in lines:
         print(l)
     for p in problems:
